@@ -33,4 +33,4 @@ Definition false_ix (l : list bool) : list N := false_ix_from 0 l.
 (* model self-check used on a sample of the generated contexts: the canonical outcome
    computed by [canon] is itself in the allowed set (the set is not empty) *)
 Definition scase_canon (P : params) (C : sctx) (o : outcome) : bool :=
-  allowed P C o && allowed P C (canon P C [700001; 700002; 700003; 700004; 700005; 700006]).
+  allowed P C o && allowed P C (canon P C (λ s, 700000 + s)).
